@@ -15,6 +15,7 @@ import (
 	"fmt"
 	mrand "math/rand"
 	"strings"
+	"sync"
 
 	"golang.org/x/crypto/ssh"
 
@@ -48,9 +49,9 @@ type CertEnt struct {
 // Blob ids are the abstract blobs of the Coq model: the id of a blob is a
 // function of its bytes (and sha256 of the bytes maps back to the id).
 type Pool struct {
+	mu     sync.Mutex
 	Keys   []*KeyEnt
 	CA     ssh.Signer
-	certs  map[uint64]*CertEnt
 	byBlob map[string]uint64
 	byHash map[[32]byte]uint64
 	blobs  map[uint64][]byte
@@ -61,7 +62,7 @@ type Pool struct {
 // Ed25519 (x2) and an Ed25519 CA. Key material comes from crypto/rand: the
 // Gallina cases only contain blob ids, so replays do not depend on it.
 func NewPool() (*Pool, error) {
-	p := &Pool{certs: map[uint64]*CertEnt{}, byBlob: map[string]uint64{}, byHash: map[[32]byte]uint64{}, blobs: map[uint64][]byte{}, nextID: 100}
+	p := &Pool{byBlob: map[string]uint64{}, byHash: map[[32]byte]uint64{}, blobs: map[uint64][]byte{}, nextID: 100}
 	add := func(name string, priv interface{}) error {
 		s, err := ssh.NewSignerFromKey(priv)
 		if err != nil {
@@ -109,16 +110,18 @@ func NewPool() (*Pool, error) {
 }
 
 func (p *Pool) register(id uint64, blob []byte) {
+	p.mu.Lock()
+	defer p.mu.Unlock()
 	p.byBlob[string(blob)] = id
 	p.byHash[sha256.Sum256(blob)] = id
 	p.blobs[id] = blob
 }
 
 // IDOfBlob returns the id of a blob (0 = unknown bytes).
-func (p *Pool) IDOfBlob(b []byte) uint64 { return p.byBlob[string(b)] }
+func (p *Pool) IDOfBlob(b []byte) uint64 { p.mu.Lock(); defer p.mu.Unlock(); return p.byBlob[string(b)] }
 
 // IDOfHash returns the id of the blob with this sha256 (0 = unknown).
-func (p *Pool) IDOfHash(h [32]byte) uint64 { return p.byHash[h] }
+func (p *Pool) IDOfHash(h [32]byte) uint64 { p.mu.Lock(); defer p.mu.Unlock(); return p.byHash[h] }
 
 func (p *Pool) Key(id uint64) *KeyEnt {
 	if id >= 1 && int(id) <= len(p.Keys) {
@@ -126,25 +129,13 @@ func (p *Pool) Key(id uint64) *KeyEnt {
 	}
 	return nil
 }
-func (p *Pool) Cert(id uint64) *CertEnt { return p.certs[id] }
+// ReserveID hands out the next certificate blob id (plan time, deterministic).
+func (p *Pool) ReserveID() uint64 { p.mu.Lock(); defer p.mu.Unlock(); id := p.nextID; p.nextID++; return id }
 
-// PublicKeyOf returns an ssh.PublicKey value for a blob id (a parsed
-// certificate or a plain key).
-func (p *Pool) PublicKeyOf(id uint64) ssh.PublicKey {
-	if c := p.certs[id]; c != nil {
-		return c.Cert
-	}
-	if k := p.Key(id); k != nil {
-		return k.Pub
-	}
-	return nil
-}
 
 // NewCert issues a certificate over key k with the given validity fields and
 // KeyId text.
-func (p *Pool) NewCert(k *KeyEnt, va, vb uint64, kid, window, kidKind string) (*CertEnt, error) {
-	id := p.nextID
-	p.nextID++
+func (p *Pool) NewCert(id uint64, k *KeyEnt, va, vb uint64, kid, window, kidKind string) (*CertEnt, error) {
 	c := &ssh.Certificate{
 		Key: k.Pub, Serial: id, CertType: ssh.UserCert, KeyId: kid,
 		ValidPrincipals: []string{"user"}, ValidAfter: va, ValidBefore: vb,
@@ -160,7 +151,6 @@ func (p *Pool) NewCert(k *KeyEnt, va, vb uint64, kid, window, kidKind string) (*
 		return nil, err
 	}
 	ce := &CertEnt{ID: id, Cert: pk.(*ssh.Certificate), Blob: blob, Key: k, VA: va, VB: vb, KidText: kid, Window: window, KidKind: kidKind}
-	p.certs[id] = ce
 	p.register(id, blob)
 	return ce, nil
 }
